@@ -413,6 +413,14 @@ func makeOptionalPtrDecoder(typ reflect.Type) (decoder, error) {
 	if err != nil {
 		return nil, err
 	}
+	// The only empty value accepted for nil is the one the encoder writes
+	// for a nil pointer of this type: an empty string for integers, bools,
+	// strings and byte slices/arrays, an empty list for everything else.
+	nilKind := List
+	if ek := etype.Kind(); isUint(ek) || ek == reflect.String || ek == reflect.Bool ||
+		((ek == reflect.Slice || ek == reflect.Array) && isByte(etype.Elem())) {
+		nilKind = String
+	}
 	dec := func(s *Stream, val reflect.Value) (err error) {
 		kind, size, err := s.Kind()
 		if err != nil || size == 0 && kind != Byte {
@@ -420,6 +428,9 @@ func makeOptionalPtrDecoder(typ reflect.Type) (decoder, error) {
 			// position must advance to the next value even though
 			// we don't read anything.
 			s.kind = -1
+			if err == nil && kind != nilKind {
+				return &decodeError{msg: fmt.Sprintf("wrong kind of empty value (got %v, want %v)", kind, nilKind), typ: typ}
+			}
 			// set the pointer to nil.
 			val.Set(reflect.Zero(typ))
 			return err
